@@ -2,8 +2,12 @@
 
 use crate::common::{Args, Report};
 
+pub mod c01;
 pub mod c04;
 pub mod c06;
+pub mod c07;
+pub mod c08;
+pub mod c09;
 pub mod c10;
 pub mod c15;
 pub mod c19;
@@ -14,8 +18,12 @@ pub mod monitors;
 
 pub fn run(args: &Args, r: &mut Report) -> bool {
     match args.prop.as_str() {
+        "C01" => c01::run(args, r),
         "C04" => c04::run(args, r),
         "C06" => c06::run(args, r),
+        "C07" => c07::run(args, r),
+        "C08" => c08::run(args, r),
+        "C09" => c09::run(args, r),
         "C10" => c10::run(args, r),
         "C15" => c15::run(args, r),
         "C19" => c19::run(args, r),
